@@ -204,4 +204,198 @@ theorem readBlock_sim2 : ∀ (fuel : Nat) (s : FState) (d' : Dict), DR s d' →
           simp only
           exact ⟨d', rfl, out, acc, hD, hC'⟩
 
+set_option maxRecDepth 8000 in
+theorem header_sim2 (s : FState) (d' : Dict) (h : DR s d') :
+    (∀ s1, readBlockHeader s = .ok s1 →
+      ∃ d2, readBlockHeader { s with dict := d' } = .ok { s1 with dict := d2 } ∧ DR s1 d2) ∧
+    (∀ e, readBlockHeader s = .error e → readBlockHeader { s with dict := d' } = .error e) := by
+  obtain ⟨out, acc, hD, hC⟩ := h
+  rw [readBlockHeader_eq s, readBlockHeader_eq { s with dict := d' }]
+  simp only
+  cases h1 : takeBits 1 s.bits with
+  | none => exact ⟨fun s1 hs => (by cases hs), fun e he => he⟩
+  | some p =>
+    obtain ⟨f, b1⟩ := p
+    simp only
+    cases h2 : takeBits 2 b1 with
+    | none => exact ⟨fun s1 hs => (by cases hs), fun e he => he⟩
+    | some q =>
+      obtain ⟨t, b2⟩ := q
+      simp only
+      match t with
+      | 0 =>
+        simp only
+        cases h3 : takeBits 16 (b2.drop (padTo8 (s.total - b2.length))) with
+        | none => exact ⟨fun s1 hs => (by cases hs), fun e he => he⟩
+        | some r =>
+          obtain ⟨n, b4⟩ := r
+          simp only
+          cases h4 : takeBits 16 b4 with
+          | none => exact ⟨fun s1 hs => (by cases hs), fun e he => he⟩
+          | some r2 =>
+            obtain ⟨nn, b5⟩ := r2
+            simp only
+            by_cases c1 : n + nn ≠ 65535
+            · simp only [if_pos c1]
+              exact ⟨fun s1 hs => (by cases hs), fun e he => he⟩
+            · simp only [if_neg c1]
+              by_cases c2 : n = 0
+              · simp only [if_pos c2]
+                refine ⟨fun s1 hs => ?_, fun e he => by cases he⟩
+                cases hs
+                refine ⟨d'.readFlush.1, ?_, out, acc ++ s.dict.readFlush.2, ?_, ?_⟩
+                · rw [← finishBlock_swap, hD.flush_out]
+                · rw [finishBlock_dict]; exact hD.flush
+                · rw [finishBlock_inCopy, finishBlock_dist]; exact hC
+              · simp only [if_neg c2]
+                exact ⟨fun s1 hs => by cases hs; exact ⟨d', rfl, out, acc, hD, hC⟩, fun e he => by cases he⟩
+      | 1 => exact ⟨fun s1 hs => by cases hs; exact ⟨d', rfl, out, acc, hD, hC⟩, fun e he => by cases he⟩
+      | 2 =>
+        simp only
+        cases h3 : readPrefixCodes b2 with
+        | error e => exact ⟨fun s1 hs => (by cases hs), fun e he => he⟩
+        | ok r =>
+          obtain ⟨lt, dt, b3⟩ := r
+          exact ⟨fun s1 hs => by cases hs; exact ⟨d', rfl, out, acc, hD, hC⟩, fun e he => by cases he⟩
+      | t + 3 => exact ⟨fun s1 hs => (by cases hs), fun e he => he⟩
+
+theorem raw_sim2 (s : FState) (d' : Dict) (h : DR s d') :
+    (∀ s1, readRawData s = .ok s1 →
+      ∃ d2, readRawData { s with dict := d' } = .ok { s1 with dict := d2 } ∧ DR s1 d2) ∧
+    (∀ e, readRawData s = .error e → readRawData { s with dict := d' } = .error e) := by
+  obtain ⟨out, acc, hD, hC⟩ := h
+  rw [readRawData_eq s, readRawData_eq { s with dict := d' }]
+  simp only
+  rw [hD.avail]
+  have wD := hD.writeBytes (Bits.toBytes (s.bits.take (8 * min (min s.dict.availSize s.blkLen) (s.bits.length / 8))))
+  generalize Bits.toBytes (s.bits.take (8 * min (min s.dict.availSize s.blkLen) (s.bits.length / 8))) = bs at wD ⊢
+  have hC2 : ∀ X : List UInt8, s.inCopy = true → 0 < s.dist ∧ s.dist ≤ min 32768 (out ++ X).length :=
+    fun X h => ⟨(hC h).1, by have := (hC h).2; rw [List.length_append]; omega⟩
+  by_cases c1 : min (min s.dict.availSize s.blkLen) (s.bits.length / 8) < min s.dict.availSize s.blkLen
+  · simp only [if_pos c1]
+    exact ⟨fun s1 hs => (by cases hs), fun e he => he⟩
+  · simp only [if_neg c1]
+    by_cases c2 : s.blkLen - min (min s.dict.availSize s.blkLen) (s.bits.length / 8) > 0
+    · simp only [if_pos c2]
+      refine ⟨fun s1 hs => ?_, fun e he => by cases he⟩
+      cases hs
+      refine ⟨(d'.writeBytes bs).1.readFlush.1, ?_, _, _, wD.flush, hC2 _⟩
+      rw [wD.flush_out]
+    · simp only [if_neg c2]
+      refine ⟨fun s1 hs => ?_, fun e he => by cases he⟩
+      cases hs
+      refine ⟨(d'.writeBytes bs).1, ?_, out ++ bs.take (min bs.length s.dict.availSize), acc, ?_, ?_⟩
+      · rw [← finishBlock_swap]
+      · rw [finishBlock_dict]; exact wD
+      · rw [finishBlock_inCopy, finishBlock_dist]; exact hC2 _
+
+theorem stepCore_sim2 (s : FState) (d' : Dict) (h : DR s d') :
+    ∃ d2, stepCore { s with dict := d' } = ({ (stepCore s).1 with dict := d2 }, (stepCore s).2) ∧
+      DR (stepCore s).1 d2 := by
+  have hS3 : s.step = .header ∨ s.step = .raw ∨ s.step = .block := by cases s.step <;> simp
+  rcases hS3 with hS | hS | hS
+  · have e1 : stepCore s = match readBlockHeader s with | .ok s' => (s', none) | .error e => (s, some e) := by
+      unfold stepCore; rw [hS]; rfl
+    have e2 : stepCore { s with dict := d' } = match readBlockHeader { s with dict := d' } with
+        | .ok s' => (s', none) | .error e => ({ s with dict := d' }, some e) := by
+      unfold stepCore; rw [hS]; rfl
+    obtain ⟨a1, a2⟩ := header_sim2 s d' h
+    rw [e1, e2]
+    cases hr : readBlockHeader s with
+    | ok s1 =>
+      obtain ⟨d2, q1, q2⟩ := a1 s1 hr
+      rw [q1]
+      exact ⟨d2, rfl, q2⟩
+    | error e =>
+      rw [a2 e hr]
+      exact ⟨d', rfl, h⟩
+  · have e1 : stepCore s = match readRawData s with
+        | .ok s' => (s', none)
+        | .error e =>
+          ({ s with dict := (s.dict.writeBytes (Bits.toBytes (s.bits.take (8 * min (min s.dict.availSize s.blkLen) (s.bits.length / 8))))).1,
+                    bits := s.bits.drop (8 * min (min s.dict.availSize s.blkLen) (s.bits.length / 8)) }, some e) := by
+      unfold stepCore; rw [hS]; rfl
+    have e2 : stepCore { s with dict := d' } = match readRawData { s with dict := d' } with
+        | .ok s' => (s', none)
+        | .error e =>
+          ({ s with dict := (d'.writeBytes (Bits.toBytes (s.bits.take (8 * min (min d'.availSize s.blkLen) (s.bits.length / 8))))).1,
+                    bits := s.bits.drop (8 * min (min d'.availSize s.blkLen) (s.bits.length / 8)) }, some e) := by
+      unfold stepCore; rw [hS]; rfl
+    obtain ⟨a1, a2⟩ := raw_sim2 s d' h
+    rw [e1, e2]
+    cases hr : readRawData s with
+    | ok s1 =>
+      obtain ⟨d2, q1, q2⟩ := a1 s1 hr
+      rw [q1]
+      exact ⟨d2, rfl, q2⟩
+    | error e =>
+      rw [a2 e hr]
+      obtain ⟨out, acc, hD, hC⟩ := h
+      simp only
+      rw [hD.avail]
+      have hC2 : ∀ X : List UInt8, s.inCopy = true → 0 < s.dist ∧ s.dist ≤ min 32768 (out ++ X).length :=
+        fun X h => ⟨(hC h).1, by have := (hC h).2; rw [List.length_append]; omega⟩
+      exact ⟨_, rfl, _, _, hD.writeBytes _, hC2 _⟩
+  · have e1 : stepCore s = readBlock (s.bits.length + s.cpyLen + 40000) s := by
+      unfold stepCore; rw [hS]
+    have e2 : stepCore { s with dict := d' } = readBlock (s.bits.length + s.cpyLen + 40000) { s with dict := d' } := by
+      unfold stepCore; rw [hS]
+    rw [e1, e2]
+    exact readBlock_sim2 _ s d' h
+
+theorem DR_applyErr (x : FState) (e : Option FErr) (d2 : Dict) (h : DR x d2) :
+    applyErr ({ x with dict := d2 }, e) = { applyErr (x, e) with dict := d2 } ∧ DR (applyErr (x, e)) d2 := by
+  unfold applyErr
+  cases e with
+  | none => exact ⟨rfl, h⟩
+  | some e => exact ⟨rfl, h⟩
+
+theorem finalFlush_sim2 (x : FState) (d2 : Dict) (h : DR x d2) :
+    ∃ d3, finalFlush { x with dict := d2 } = { finalFlush x with dict := d3 } ∧ DR (finalFlush x) d3 := by
+  obtain ⟨out, acc, hD, hC⟩ := h
+  unfold finalFlush
+  simp only
+  by_cases c : x.err ≠ none ∧ x.toRead.isEmpty = true
+  · rw [if_pos c, if_pos c]
+    refine ⟨d2.readFlush.1, ?_, _, _, hD.flush, hC⟩
+    rw [hD.flush_out]
+  · rw [if_neg c, if_neg c]
+    exact ⟨d2, rfl, out, acc, hD, hC⟩
+
+theorem stepOnce_sim2 (s : FState) (d' : Dict) (h : DR s d') :
+    ∃ d2, stepOnce { s with dict := d' } = { stepOnce s with dict := d2 } ∧ DR (stepOnce s) d2 := by
+  rw [stepOnce_eq, stepOnce_eq]
+  obtain ⟨d2, q1, q2⟩ := stepCore_sim2 s d' h
+  rw [q1]
+  obtain ⟨r1, r2⟩ := DR_applyErr (stepCore s).1 (stepCore s).2 d2 q2
+  rw [r1]
+  exact finalFlush_sim2 _ d2 r2
+
+theorem read_sim2 : ∀ (fuel : Nat) (s : FState) (d' : Dict) (n : Nat), DR s d' →
+    ∃ d2, Impl.read fuel { s with dict := d' } n =
+        ({ (Impl.read fuel s n).1 with dict := d2 }, (Impl.read fuel s n).2) ∧
+      DR (Impl.read fuel s n).1 d2 := by
+  intro fuel
+  induction fuel with
+  | zero => intro s d' n h; exact ⟨d', rfl, h⟩
+  | succ fuel ih =>
+    intro s d' n h
+    rw [read_succ, read_succ]
+    simp only
+    by_cases c1 : (!s.toRead.isEmpty) = true
+    · rw [if_pos c1, if_pos c1]
+      by_cases c2 : (s.toRead.drop n).isEmpty = true
+      · rw [if_pos c2, if_pos c2]
+        exact ⟨d', rfl, h⟩
+      · rw [if_neg c2, if_neg c2]
+        exact ⟨d', rfl, h⟩
+    · rw [if_neg c1, if_neg c1]
+      by_cases c2 : s.err ≠ none
+      · rw [if_pos c2, if_pos c2]
+        exact ⟨d', rfl, h⟩
+      · rw [if_neg c2, if_neg c2]
+        obtain ⟨d2, q1, q2⟩ := stepOnce_sim2 s d' h
+        rw [q1]
+        exact ih _ d2 n q2
+
 end Compress.Proofs.FlateApiReset
